@@ -1,7 +1,7 @@
 (* C02 property theorems.  Nothing but statements closed by `exact`, a pin, and
    Print Assumptions.  The driver parses this file's output. *)
 From ZV.Common Require Import Base.
-From ZV.C02 Require Import Model RunCase ProofsBits ProofsMatch ProofsSeq ProofsFrame.
+From ZV.C02 Require Import Model ModelRec RunCase ProofsBits ProofsMatch ProofsSeq ProofsFrame ProofsRec.
 Open Scope N_scope.
 
 (* BitWriter::write_bits appends the low `bits` bits of the value to the stream (a little-endian
@@ -148,7 +148,34 @@ Check normalize_not_idempotent :
   exists f, sum_list f = 4096 /\ rans_table f <> Some f.
 Print Assumptions normalize_not_idempotent.
 
+(* PA-Zip byte-level records: any parse of x into strategies whose fields fit their casts is
+   written by apply_compression_strategy as a stream that decompress turns back into x *)
+Theorem legacy_stream_roundtrip :
+  forall dict x ps stream, run_parse dict x ps [] = Some (x, stream) -> legacy_decompress dict stream = Some x.
+Proof. exact legacy_stream_roundtrip_proof. Qed.
+Check legacy_stream_roundtrip :
+  forall dict x ps stream, run_parse dict x ps [] = Some (x, stream) -> legacy_decompress dict stream = Some x.
+Print Assumptions legacy_stream_roundtrip.
+
+(* the Far1Short reader before the fix (one-byte distance) disagrees with the writer's layout *)
+Theorem far1short_old_reader_refuted :
+  exists out d l tail,
+    copy_from_distance out d l <> None /\
+    decompress_match_old_far1 4 (le16 d ++ [l] ++ tail) out <>
+    decompress_match [] 4 (le16 d ++ [l] ++ tail) out.
+Proof. exact far1short_old_reader_refuted_proof. Qed.
+Check far1short_old_reader_refuted :
+  exists out d l tail,
+    copy_from_distance out d l <> None /\
+    decompress_match_old_far1 4 (le16 d ++ [l] ++ tail) out <>
+    decompress_match [] 4 (le16 d ++ [l] ++ tail) out.
+Print Assumptions far1short_old_reader_refuted.
+
 (* non-vacuity of the hypotheses above *)
+Example legacy_stream_inhabited :
+  let x := [7; 7; 7; 7; 9; 7; 9; 7; 9; 116; 104; 101] in
+  exists stream, run_parse [116; 104; 101; 32] x [SLiteral 1; SLocal 1 3 2; SLiteral 1; SLocal 2 4 3; SGlobal 0 3] [] = Some (x, stream).
+Proof. cbn zeta. eexists. vm_compute. reflexivity. Qed.
 Example match_roundtrip_inhabited :
   wt (Far3Long 70000 100000) /\ exists n w, encode_match (Far3Long 70000 100000) writer_new = Some (n, w).
 Proof. split; [cbn; lia|]. do 2 eexists. vm_compute. reflexivity. Qed.
